@@ -120,9 +120,9 @@ pub fn run(run: &mut Run) -> &'static str {
     // thorough: coverage-guided fuzzing of the position generators' choice tape (libFuzzer), the same
     // differential oracle inside the target; crashing tapes are replayed here in the checked build
     if run.tier == Tier::Thorough && run.replay.is_none() && run.only_parts.is_empty() {
-        match run_fuzz("movegen", run.seed, 400_000, 8, 400, &[]) {
+        match run_fuzz("movegen", run.seed, 150_000, 12, 400, &[]) {
             Ok((execs, corpus, crashes)) => {
-                run.extra.insert("fuzz".into(), json!({"target": "movegen", "engine": "libFuzzer (cargo-fuzz)", "executions": execs, "corpus_files": corpus, "crashing_inputs": crashes.len(), "jobs": 8}));
+                run.extra.insert("fuzz".into(), json!({"target": "movegen", "engine": "libFuzzer (cargo-fuzz)", "executions": execs, "corpus_files": corpus, "crashing_inputs": crashes.len(), "jobs": 12}));
                 let tapes: Vec<PosCase> = crashes.iter().map(|b| PosCase::Tape(b.chunks(2).map(|c| u16::from_le_bytes([c[0], *c.get(1).unwrap_or(&0)])).collect())).collect();
                 if !tapes.is_empty() {
                     run.exhaustive_part("fuzz_crashes", RULE, tapes, |case: &PosCase, st: &mut Stats| {
